@@ -93,6 +93,84 @@ Definition seqinfo_parse (pattern : bytes) (o : sopts) (refmt : option bytes) : 
   | OutOfFuel => OutOfFuel
   end.
 
+(** The same pipeline as a list of stages, in the order gfsgen translates from func parse
+    (Gen/GenSeqinfo.v); [None] = the entry carries an error.  [seqinfo_run] with the reference
+    order is proved equal to [seqinfo_parse] (Proofs/SeqinfoProofs.v). *)
+Inductive stage : Type :=
+| StFormat | StDirname | StBasename | StExt | StPadding | StRange | StInverted | StIndex | StFrame.
+
+Definition reference_pipeline : list stage :=
+  [StFormat; StDirname; StBasename; StExt; StPadding; StRange; StInverted; StIndex; StFrame].
+
+Definition run_stage (st : pstyle) (o : sopts) (refmt : option bytes) (s : stage) (q : fileseq)
+  : outcome (option fileseq) :=
+  match s with
+  | StFormat =>
+    if so_format o then
+      match refmt with
+      | None => Ok None
+      | Some s' => match new_fileseq s' st with Ok q' => Ok (Some q') | _ => Ok None end
+      end
+    else Ok (Some q)
+  | StDirname => Ok (Some (if nonempty (so_dir o) then set_dirname q (so_dir o) else q))
+  | StBasename => Ok (Some (if nonempty (so_base o) then set_basename q (so_base o) else q))
+  | StExt => Ok (Some (if nonempty (so_ext o) then set_ext q (so_ext o) else q))
+  | StPadding => Ok (Some (if nonempty (so_pad o) then set_padding q (so_pad o) else q))
+  | StRange =>
+    if nonempty (so_range o) then
+      let r := set_frame_range q (so_range o) in
+      if snd r then Ok (Some (fst r)) else Ok None
+    else Ok (Some q)
+  | StInverted =>
+    Ok (Some (if so_inverted o then
+                match q_fs q with
+                | None => set_frameset q None
+                | Some f =>
+                  match fs_inverted_frame_range f 0 with
+                  | [] => set_frameset q None
+                  | fr => fst (set_frame_range q fr)
+                  end
+                end
+              else q))
+  | StIndex =>
+    match so_index o with
+    | None => Ok (Some q)
+    | Some i =>
+      match q_index q i with
+      | [] => Ok None
+      | path => reparse_frame path st
+      end
+    end
+  | StFrame =>
+    match so_frame o with
+    | None => Ok (Some q)
+    | Some f => reparse_frame (q_frame_int q f) st
+    end
+  end.
+
+Fixpoint run_stages (st : pstyle) (o : sopts) (refmt : option bytes) (pl : list stage) (q : fileseq)
+  : outcome (option fileseq) :=
+  match pl with
+  | [] => Ok (Some q)
+  | s :: rest =>
+    do x <- run_stage st o refmt s q;
+    match x with
+    | None => Ok None
+    | Some q' => run_stages st o refmt rest q'
+    end
+  end.
+
+Definition seqinfo_run (pl : list stage) (pattern : bytes) (o : sopts) (refmt : option bytes) : outcome sresult :=
+  let st := if so_hash1 o then Hash1 else Hash4 in
+  match new_fileseq pattern st with
+  | Ok q0 =>
+    do x <- run_stages st o refmt pl q0;
+    Ok (match x with None => err_result pattern | Some q => fill_result q end)
+  | Err _ => Ok (err_result pattern)
+  | Panic n => Panic n
+  | OutOfFuel => OutOfFuel
+  end.
+
 (** collection: results arrive in any order and are stored under their pattern *)
 Fixpoint map_set {A} (m : list (bytes * A)) (k : bytes) (v : A) : list (bytes * A) :=
   match m with
